@@ -409,6 +409,59 @@ def pipeline(run, label, alphabet, maxlen, header, dlm=44, inpolicies=('simple',
     run.sample({'pipeline_case': res.cases[len(res.cases) // 2]})
 
 
+def _pipeline_cli_chunk(items):
+    from ..text import s as S
+    out = []
+    d = tempfile.mkdtemp(prefix='rbqlverif_c13pc_')
+    try:
+        inp = os.path.join(d, 'in.csv')
+        outp = os.path.join(d, 'out.csv')
+        for case, fmt in items:
+            with open(inp, 'wb') as f:
+                f.write(S(case['text']).encode('utf-8'))
+            if os.path.exists(outp):
+                os.unlink(outp)
+            query = 'select *' if case['qk'] == 1 else 'select NR, a1'
+            rc, so, se = cli(['--query', query, '--delim', S(case['indlm']), '--policy', case['ipol'], '--out-format', fmt, '--input', inp, '--output', outp])
+            failing = bool(case['rderr'])
+            text = open(outp, 'rb').read().decode('utf-8') if os.path.exists(outp) else ''
+            is_table = True if failing else (so == '' and text == S(case['out']))
+            out.append({'exit': rc, 'stdout_is_table': bool(is_table), 'stderr_kinds': stderr_kinds(se), 'outcome': 'error' if failing else 'ok',
+                        'stderr': se[:200], 'got': text[:120], 'want': S(case['out'])[:120], 'query': query, 'fmt': fmt})
+    finally:
+        shutil.rmtree(d, ignore_errors=True)
+    return out
+
+
+def pipeline_cli(run, maxlen):
+    """The text pipeline through `python -m rbql`: input `;`-separated under the simple / quoted policy, --out-format csv (comma, quoted) and tsv
+    (TAB, simple): the output file must hold TLC's text for THAT output dialect; runs judged by the CliOk monitor."""
+    alphabet = [97, 34, 44, 59, 10]
+    items = []
+    for fmt, odlm, opol in (('csv', 44, 'quoted'), ('tsv', 9, 'simple')):
+        d = tlcrun.new_scratch('c13pc')
+        consts = {'DlmA': 59, 'DlmB': 0, 'EmitCases': 'TRUE', 'Recs': '{}', 'MaxRecs': 0, 'WPolicies': '{}', 'LineSeps': '{}',
+                  'PAlphabet': '{' + ', '.join(map(str, alphabet)) + '}', 'PMaxLen': maxlen, 'InPolicies': '{"simple", "quoted"}',
+                  'OutPolicies': '{"%s"}' % opol, 'OutDlm': odlm, 'WithHeader': 'FALSE', 'PQueries': '{1, 2}'}
+        cfg = tlcrun.write_cfg(os.path.join(d, fmt + '.cfg'), constants=consts, init='PInit', next_='PNext', invariants=['ReReadable', 'PEmit'])
+        res = tlcrun.run_tlc('Pipeline', cfg, timeout=3600)
+        run.add_tlc('Pipeline:cli-out-format-' + fmt, res)
+        items.extend((case, fmt) for case in res.cases)
+    outs = par.pmap(_pipeline_cli_chunk, items, chunk=40)
+    traces = []
+    for k, ((case, fmt), o) in enumerate(zip(items, outs)):
+        run.traces += 1
+        run.count(['pipeline-cli', case['text'], case['ipol'], case['qk'], fmt], nontrivial=len(case['text']) >= 2)
+        traces.append(dict(o, tid='p%d' % k))
+    rej = frontends.validate(run, 'cli', [{k: t[k] for k in ('tid', 'exit', 'stdout_is_table', 'stderr_kinds', 'outcome')} for t in traces], 'text-pipeline-cli')
+    for t, (case, fmt) in zip(traces, items):
+        if t['tid'] in rej:
+            run.violation({'impl': 'py', 'frontend': 'cli', 'what': 'text pipeline: command-line run rejected by the CliOk monitor (output file is not the table in the requested output format, or wrong exit / stderr)',
+                           'out_format': fmt, 'in_policy': case['ipol'], 'exit': t['exit'], 'got': t['got'], 'want': t['want'], 'stderr': t['stderr'][:120], 'query': t['query']},
+                          {'kind': 'pipeline_cli', 'case': case, 'fmt': fmt})
+    run.notes['pipeline_cli_runs'] = len(traces)
+
+
 def run_family(run, label, queries, recsA, maxA, recsB='R_none', maxB=0, cli_every=7):
     d = tlcrun.new_scratch('c13')
     cfg = ec.engine_cfg(os.path.join(d, label + '.cfg'), queries, recsA, recsB, maxA, maxB, (False, True), (0,))
@@ -455,6 +508,7 @@ def check(run):
     pipeline(run, 'text-pipeline', [97, 34, 44, 59, 10, 32], 3 if quick else 5, False)
     pipeline(run, 'text-pipeline-header', [97, 34, 44, 59, 10, 32], 3 if quick else 4, True)
     pipeline(run, 'text-pipeline-whitespace-monocolumn', [97, 34, 32, 59, 10], 4 if quick else 5, False, dlm=32, inpolicies=('whitespace', 'monocolumn'), queries=(1,))
+    pipeline_cli(run, 2 if quick else 3)
     cli_environment_faults(run)
     ctl = core.Run(run.prop, run.tier, run.seed)
     if frontends.validate(ctl, 'cli', [{'tid': 'x', 'exit': 0, 'stdout_is_table': True, 'stderr_kinds': ['error'], 'outcome': 'ok'}], 'control') != {'x'}:
@@ -470,6 +524,11 @@ def replay(path):
         for sig in _pipeline_chunk([rep['case']['case']])[0]:
             run.traces += 1
             run.violation(sig, rep['case'])
+        return run.finish()
+    if rep['case']['kind'] == 'pipeline_cli':
+        for o in _pipeline_cli_chunk([(rep['case']['case'], rep['case']['fmt'])]):
+            print(json.dumps(o)[:600])
+        pipeline_cli(run, 2)
         return run.finish()
     if rep['case']['kind'] == 'cli_fault':
         cli_environment_faults(run)
